@@ -610,7 +610,8 @@ def oracle_counts(m, spec, res, T):
         listed = []      # (name, indexes of pool entries it may stand for)
         for name in got_e:
             mm = re.match(r'Layer: (\S+)\.setUp$', name)
-            if mm and mm.group(1).startswith(W.simrt.LAYERMOD + '.'):
+            if mm and m.short(mm.group(1)) in m.layers and \
+                    m.full(m.short(mm.group(1))) == mm.group(1):
                 clos = m.closure(m.short(mm.group(1)))
                 listed.append((name, [i for i, l in enumerate(pool) if l in clos]))
             else:
